@@ -24,7 +24,6 @@ import (
 	"context"
 	"fmt"
 	"runtime"
-	"strings"
 	"sync"
 	"sync/atomic"
 	"time"
@@ -218,7 +217,7 @@ func (g *group) wait() string {
 			continue
 		}
 		if err := c12sched.Settle(10 * time.Second); err != nil {
-			return "no-quiescence"
+			return "never-quiesces" // bounded wait: some call keeps running (a wait loop without Wait, a livelock)
 		}
 		if atomic.LoadInt64(&g.left) != 0 {
 			return "parked"
@@ -466,10 +465,6 @@ func ChildMain(args []string) {
 	n := 0
 	fmt.Sscanf(args[2], "%d", &n)
 	if v := Run(args[0], args[1], n); v != nil {
-		if strings.Contains(v.Key, "no-quiescence") { // not a verdict: the snapshot never became stable
-			fmt.Printf("harness\t%s\t%s\n", v.Key, v.What)
-			return
-		}
 		fmt.Printf("violation\t%s\t%s\n", v.Key, v.What)
 		return
 	}
